@@ -75,7 +75,7 @@ mod proofs {
         }
     }
 
-    // @harness intersect_exists @C12.k.intersect_exists complete :: when the two boxes (well-formed, finite) share a point, intersect returns a box
+    // @harness intersect_exists @C12.k.intersect_exists @C08.k.intersect_exists complete :: when the two boxes (well-formed, finite) share a point, intersect returns a box
     #[kani::proof]
     fn intersect_exists() {
         let (a, b) = (any_box(), any_box());
